@@ -10,7 +10,7 @@ CHECK = {
             "every garbage prefix x sequence of well-formed frames, every driver-call position x {-EIO,-EPIPE}, both modes; "
             "the quantifier's 'random full-alphabet payloads up to 1 KiB' is replaced by exhaustive structured families "
             "(ESC followed by each of the 256 octet values, all 65536 octet pairs, constant fills of all 256 values, ramps from all 256 starts, class cycles of every length 0..1024); "
-            "E-STATE: from every reachable (flags,state) context every stream up to the bound is decoded to exhaustion. "
+            "E-STATE: from every reachable context (the whole RFC1055Context image as the library leaves it on a zeroed block, whatever members it has) every stream up to the bound is decoded to exhaustion. "
             "non-trivial = payload non-empty / stream yields at least one delivery or -EILSEQ / stream owes at least one frame "
             "behind the garbage / the injected fault fired",
     "assumptions": [
@@ -20,6 +20,9 @@ CHECK = {
         "drivers answer 1 octet per call or a negative code; 0-returns, -EINTR/-EAGAIN and partially accepting chunk sinks are not scripted (C17's subject)",
         "resynchronisation oracle: classic = frame behind any delimiter; start-of-frame = all non-empty frames of a well-formed run but the first non-empty one; "
         "empty deliveries never count against the decoder; delivery of empty frames is demanded only from the initial context",
+        "'never emits more octets than it consumed' is judged cumulatively over the decode calls on one stream (a decoder may hold octets back across calls), not per call",
+        "RFC1055_WORST_CASE is not named by the statement: it is only required to be no smaller than the worst-case encoding length 2n+1 (2n+2) (a buffer dimensioned with a smaller value would overflow); a larger, conservative value is accepted",
+        "the decoder context is opaque apart from `flags` and `state` being readable: E-STATE nodes are whole context images produced by the library itself, 'initial' means octet-identical to what rfc1055_context_init produces",
     ],
     "harnesses": [
         {
